@@ -120,7 +120,50 @@ func TestC18_P_RecursiveImport(t *testing.T) {
 		ls := st.LinkSystem()
 		var link datamodel.Link
 		var berr, cerr error
+		// imports into a store that refuses one write (at open, while writing, at commit; error values incl. ones wrapping
+		// io.EOF / fs.ErrNotExist): whatever the importer makes of the failure, if it reports success the DAG it names
+		// must still be the tree
+		type flaky struct {
+			k, kind int
+			stage   string
+		}
+		var flakies []flaky
+		if !allowFifo {
+			for i := rapid.IntRange(0, 2).Draw(t, "flakyImports"); i > 0; i-- {
+				flakies = append(flakies, flaky{rapid.IntRange(1, 14).Draw(t, "flakyAt"), genFaultKind(t), rapid.SampledFrom([]string{"open", "write", "commit"}).Draw(t, "flakyStage")})
+			}
+		}
+		var flakyErr error
 		err := withFSTree(root, func(p string) {
+			for _, f := range flakies {
+				fst := NewStore()
+				fst.FaultKind = f.kind
+				switch f.stage {
+				case "open":
+					fst.FailOpenAt = f.k
+				case "write":
+					fst.FailWriteAt = f.k
+				default:
+					fst.FailCommitAt = f.k
+				}
+				fls := fst.LinkSystem()
+				var fl datamodel.Link
+				var ferr error
+				must(t, "BuildUnixFSRecursive into a flaky store", func() { fl, _, ferr = builder.BuildUnixFSRecursive(p, fls) })
+				if ferr == nil && flakyErr == nil {
+					if fl == nil {
+						flakyErr = fmt.Errorf("import with write #%d failing at %s (%s) returned neither a link nor an error", f.k, f.stage, faultKinds[f.kind].Name)
+					} else {
+						fst.FailOpenAt, fst.FailWriteAt, fst.FailCommitAt = 0, 0, 0
+						var ce error
+						must(t, "read back flaky import", func() { ce = c18Compare(fst, fls, cidOf(fl), root, "") })
+						if ce != nil {
+							flakyErr = fmt.Errorf("import with write #%d failing at %s (%s) reported success, but the DAG it returned is not the tree: %v", f.k, f.stage, faultKinds[f.kind].Name, ce)
+						}
+					}
+				}
+				feats["flaky-store"] = true
+			}
 			must(t, "BuildUnixFSRecursive", func() { link, _, berr = builder.BuildUnixFSRecursive(p, ls) })
 			if berr == nil && link != nil {
 				must(t, "read back", func() { cerr = c18Compare(st, ls, cidOf(link), root, "") })
@@ -148,6 +191,9 @@ func TestC18_P_RecursiveImport(t *testing.T) {
 		})
 		if err != nil {
 			t.Fatalf("harness: materialise: %v", err)
+		}
+		if flakyErr != nil {
+			t.Fatalf("C18: %v", flakyErr)
 		}
 		if hasFifo {
 			if berr == nil {
